@@ -15,6 +15,12 @@ pub fn run(r: &mut Report) {
         ("ecdsa", "/repo/tests/ecdsa/ec.spki.der", "/repo/tests/ecdsa/ec.pk8.der", SignatureScheme::EcdsaP256Sha256),
         ("rsa2048", "/repo/tests/rsa/rsa-2048.spki.der", "/repo/tests/rsa/rsa-2048.pk8.der", SignatureScheme::RsaSsaPssSha256),
         ("rsa4096", "/repo/tests/rsa/rsa-4096.spki.der", "/repo/tests/rsa/rsa-4096.pk8.der", SignatureScheme::RsaSsaPssSha256),
+        // keys generated for this harness (openssl): unusual public exponents (high bit set -> DER sign padding; 33 bits), 3072 bits, a second P-256 key
+        ("rsa2048-e80000003", "/verif/replay/fixtures/rsa-2048-e2147483651.spki.der", "/verif/replay/fixtures/rsa-2048-e2147483651.pk8.der", SignatureScheme::RsaSsaPssSha256),
+        ("rsa2048-e100000001", "/verif/replay/fixtures/rsa-2048-e4294967297.spki.der", "/verif/replay/fixtures/rsa-2048-e4294967297.pk8.der", SignatureScheme::RsaSsaPssSha512),
+        ("rsa2048-e65539", "/verif/replay/fixtures/rsa-2048-e65539.spki.der", "/verif/replay/fixtures/rsa-2048-e65539.pk8.der", SignatureScheme::RsaSsaPssSha256),
+        ("rsa3072", "/verif/replay/fixtures/rsa-3072.spki.der", "/verif/replay/fixtures/rsa-3072.pk8.der", SignatureScheme::RsaSsaPssSha256),
+        ("ecdsa-2", "/verif/replay/fixtures/ec-2.spki.der", "/verif/replay/fixtures/ec-2.pk8.der", SignatureScheme::EcdsaP256Sha256),
     ] {
         let der = std::fs::read(spki).unwrap();
         let from_spki = no_panic(|| PublicKey::from_spki(&der, scheme.clone()));
